@@ -29,7 +29,7 @@ CHECKS = {
    "Nine base scenarios (idle; publishes in flight with gated handlers; inbound payload half received with a reader waiting; outbound sends awaiting acknowledgement; senders parked on a full window; ready() parked on write back-pressure; outbound stream half written; "
    "gated protocol handler with packets buffered; mixed) x every step index x 12-17 causes per role x Stop notification handled at once or held open x four roles; byte offsets 1..39 inside inbound packets for peer close / read error. "
    "Exactly one Stop of the class the cause demands and no control call after it, every owned future resolved, no clean end of an incomplete payload, no handler cancelled before the held Stop was handled and none left running, connection task finished, no panic.",
-   "Trusted: as C03. Keep-alive expiry is exercised by C20; a failing back-pressure notification does not end the connection in this library and is only required not to break teardown.",
+   "Trusted: as C03. Keep-alive expiry is a real-time cause after the last step of each scenario (server roles; timing itself is C20's subject); a failing back-pressure notification does not end the connection in this library and is only required not to break teardown.",
    "DESIGN.md section 3 C07"),
  "C08": ("exploration",
    "stateful proptest histories of sink operations and inbound traffic plus deterministic scenarios; whole-stream parse with the reference decoder and a supplied-bytes oracle; thorough tier additionally a coverage-guided libFuzzer campaign (target `sink`) over byte-encoded histories judged by the same oracle",
